@@ -155,6 +155,14 @@ static struct {
 	uint32_t rm;
 } mqop[MAXOPS];
 static int nmqop;
+static int mq_rfd = -1, mq_wfd = -1; // the poll descriptors a raw socket hands out for this queue
+#include <poll.h>
+static int
+fd_readable(int fd)
+{
+	struct pollfd p = { .fd = fd, .events = POLLIN };
+	return fd >= 0 && poll(&p, 1, 0) == 1 && (p.revents & POLLIN) != 0;
+}
 
 static void
 mq_harvest(void)
@@ -210,7 +218,8 @@ mq_done_obs(const char *rv)
 			npend++;
 		}
 	}
-	o("]},\"obs\":{\"cap\":%d,\"npend\":%d}}", nni_msgq_cap(mq), npend);
+	o("]},\"obs\":{\"cap\":%d,\"npend\":%d,\"pollr\":\"%d\",\"pollw\":\"%d\"}}", nni_msgq_cap(mq), npend, fd_readable(mq_rfd),
+	    fd_readable(mq_wfd));
 }
 static void
 do_mq(char *act, long a1)
@@ -218,14 +227,21 @@ do_mq(char *act, long a1)
 	int         rv;
 	const char *rvs = NULL;
 	if (!strcmp(act, "init")) {
+		nni_pollable *pr, *pw;
 		if (nni_msgq_init(&mq, (unsigned) a1) != 0) {
+			abort();
+		}
+		// as nng_socket_get_recv_poll_fd / get_send_poll_fd do on a raw socket: asked for once, then only polled
+		if (nni_msgq_get_recvable(mq, &pr) != 0 || nni_msgq_get_sendable(mq, &pw) != 0 || nni_pollable_getfd(pr, &mq_rfd) != 0 ||
+		    nni_pollable_getfd(pw, &mq_wfd) != 0) {
 			abort();
 		}
 		nmqop = 0;
 		return;
 	}
-	if (!strcmp(act, "aio_put") || !strcmp(act, "aio_get")) {
-		int isput = act[4] == 'p';
+	if (!strcmp(act, "aio_put") || !strcmp(act, "aio_get") || !strcmp(act, "nb_put") || !strcmp(act, "nb_get")) {
+		int nb    = act[0] == 'n';
+		int isput = act[nb ? 3 : 4] == 'p';
 		if (nmqop >= MAXOPS) {
 			exit(3);
 		}
@@ -236,11 +252,17 @@ do_mq(char *act, long a1)
 		mqop[nmqop].m     = (uint32_t) a1;
 		mqop[nmqop].done  = 0;
 		nmqop++;
+		if (nb) {
+			nni_aio_set_timeout(mqop[nmqop - 1].aio, NNG_DURATION_ZERO); // NNG_FLAG_NONBLOCK
+		}
 		if (isput) {
 			nni_aio_set_msg(mqop[nmqop - 1].aio, mkmsg((uint32_t) a1));
 			nni_msgq_aio_put(mq, mqop[nmqop - 1].aio);
 		} else {
 			nni_msgq_aio_get(mq, mqop[nmqop - 1].aio);
+		}
+		if (nb) {
+			nni_aio_wait(mqop[nmqop - 1].aio); // a zero-timeout operation always ends at once
 		}
 	} else if (!strcmp(act, "tryput")) {
 		nng_msg *m = mkmsg((uint32_t) a1);
